@@ -20,6 +20,8 @@ enum HashSel {
     Own,
     /// the hash currently stored for another key (smallest other key in the model)
     OwnedByOther,
+    /// a second fresh hash for the same (key, value): the leaf hash changes, the value id does not
+    Alt,
 }
 
 #[derive(Clone, Debug, PartialEq, Eq)]
@@ -52,7 +54,7 @@ impl Op {
         }
     }
     fn from_json(v: &Value) -> Op {
-        let h = |v: &Value| if v["h"] == "Own" { HashSel::Own } else { HashSel::OwnedByOther };
+        let h = |v: &Value| if v["h"] == "Own" { HashSel::Own } else if v["h"] == "Alt" { HashSel::Alt } else { HashSel::OwnedByOther };
         match v["op"].as_str().unwrap() {
             "insert" => Op::Insert {
                 k: v["k"].as_i64().unwrap(),
@@ -80,6 +82,7 @@ impl Op {
             Op::Insert { loc: Loc::Leaf(..), .. } => "insert-leaf",
             Op::Insert { .. } => "insert-hashcollide",
             Op::Upsert { h: HashSel::Own, .. } => "upsert",
+            Op::Upsert { h: HashSel::Alt, .. } => "upsert-newhash-samevalue",
             Op::Upsert { .. } => "upsert-hashcollide",
             Op::Delete { .. } => "delete",
             Op::Batch { .. } => "batch",
@@ -96,6 +99,7 @@ fn leaf_hash(k: i64, v: i64) -> [u8; 32] {
 fn sel_hash(model: &Model, k: i64, v: i64, h: &HashSel) -> Option<[u8; 32]> {
     match h {
         HashSel::Own => Some(leaf_hash(k, v)),
+        HashSel::Alt => Some(sha256(&[b"alt", &k.to_be_bytes(), &v.to_be_bytes()])),
         HashSel::OwnedByOther => model.iter().find(|(ok, _)| **ok != k).map(|(_, (_, h))| *h),
     }
 }
@@ -356,6 +360,7 @@ fn alphabet(blob: &MerkleBlob, keys: &[i64], batch_max: usize) -> Vec<Op> {
         for v in [10, 20] {
             ops.push(Op::Upsert { k, v, h: HashSel::Own });
         }
+        ops.push(Op::Upsert { k, v: 10, h: HashSel::Alt });
         ops.push(Op::Upsert { k, v: 20, h: HashSel::OwnedByOther });
         ops.push(Op::Insert { k, v: 10, h: HashSel::OwnedByOther, loc: Loc::Auto });
         ops.push(Op::Insert { k, v: 10, h: HashSel::Own, loc: Loc::AsRoot });
@@ -416,7 +421,7 @@ fn signature(model: &Model, op: &Op, what: &str) -> String {
 
 fn run(rep: &Report) {
     let keys: Vec<i64> = rep.tier.pick(vec![1, 2, 3], vec![1, 2, 3, 4]);
-    let depth = std::env::var("C18_DEPTH").ok().and_then(|s| s.parse().ok()).unwrap_or(rep.tier.pick(6, 6));
+    let depth = std::env::var("C18_DEPTH").ok().and_then(|s| s.parse().ok()).unwrap_or(rep.tier.pick(5, 6));
     let batch_max = rep.tier.pick(2, 3);
     let max_states = rep.tier.pick(400_000, 6_000_000);
     rep.set_rule(&format!(
